@@ -119,6 +119,10 @@ impl<K: Eq + Hash, V, S> HashMap<K, V, S> {
             None => None,
         }
     }
+    /// `entry(k)`: only `or_insert` / `or_insert_with` of the entry API are modelled.
+    pub fn entry(&mut self, k: K) -> Entry<'_, K, V, S> {
+        Entry { m: self, k }
+    }
     /// Keep the entries for which `f` returns true (visited in slot order).
     pub fn retain<F: FnMut(&K, &mut V) -> bool>(&mut self, mut f: F) {
         let mut i = 0;
@@ -153,6 +157,41 @@ impl<K: Eq + Hash, V, S> HashMap<K, V, S> {
 impl<K: Eq + Hash, V> HashMap<K, V, DefaultHashBuilder> {
     pub fn new() -> Self {
         Self::with_hasher(DefaultHashBuilder)
+    }
+}
+pub struct Entry<'a, K, V, S> {
+    m: &'a mut HashMap<K, V, S>,
+    k: K,
+}
+impl<'a, K: Eq + Hash, V, S> Entry<'a, K, V, S> {
+    pub fn or_insert_with<F: FnOnce() -> V>(self, f: F) -> &'a mut V {
+        let Entry { m, k } = self;
+        let i = match m.idx(&k) {
+            Some(i) => i,
+            None => {
+                let v = f();
+                let mut j = 0;
+                let mut found = MAPCAP;
+                while j < MAPCAP {
+                    if !m.used[j] && found == MAPCAP {
+                        found = j;
+                    }
+                    j += 1;
+                }
+                if found == MAPCAP {
+                    panic!("BOUND: harness map bound (MAPCAP) exceeded in the hashbrown model");
+                }
+                m.used[found] = true;
+                m.keys[found] = MaybeUninit::new(k);
+                m.vals[found] = MaybeUninit::new(v);
+                m.len += 1;
+                found
+            }
+        };
+        unsafe { m.vals[i].assume_init_mut() }
+    }
+    pub fn or_insert(self, v: V) -> &'a mut V {
+        self.or_insert_with(|| v)
     }
 }
 pub struct Values<'a, K, V, S> {
